@@ -101,8 +101,8 @@ func init() {
 		Assumptions: []string{"oracle: the same history on an unfolder without key cache", "eviction order itself is not asserted (not part of the property)"},
 	}
 	registry["C14"] = &propCfg{
-		Engine: abandon.Engine{}, EngineName: "abandon", Level: "exploration", RacePhaseRuns: 30000,
-		QuickRuns: 200000, ThoroughRuns: 6000000, QuickCapS: 60, ThoroughCapS: 900,
+		Engine: abandon.Engine{}, EngineName: "abandon", Level: "exploration", RacePhaseRuns: 24000,
+		QuickRuns: 160000, ThoroughRuns: 6000000, QuickCapS: 60, ThoroughCapS: 900,
 		Rule: "one run = one (well-formed stream, target type) pair - the stream is the fold of a catalogue value of the target's or another type, a generated stream (typed hints, deep chains), hand-made events for the self-nesting Tree type, 1 in 3 then mutated in the middle (subtree replaced, members rotated or dropped); the target any catalogue type incl. an unsupported one, 1 in 3 pre-populated, 1 in 4 with user-defined unfolders (three styles) - abandoned after k events for EVERY k (24 sampled + complete if >40 events), with announced lengths of still-open containers inflated to {2^16,2^20,2^31-1,2^31,2^40,2^62,2^63-1} in half of the cases; then Reset, SetTarget and a compatible probe document (1 in 3 of the same type); evaluations = (stream,target,k) triples; distinct by (target, delivered prefix, announcements, probe type); all are non-trivial (a crash point or a complete mismatching document); the first 40000 runs are repeated under the -race build; further scenario kinds: soak (1 in 60), deep (1 in 40: several documents 8-130 levels deep on one unfolder, completed or abandoned, with/without Reset), grown (1 in 300: allocation for an inflated announcement on an unfolder that received an honest array of 1100-300000 elements versus a new one), extreme streams (1 in 1500); bytes lent through OnKeyRef/OnStringRef must come back unchanged",
 		Components: map[string][]string{
 			"real": {"gotype.Unfolder (all generated and reflection based unfolder states, Reset, SetTarget)", "gotype.Fold (stream source)"},
@@ -111,7 +111,7 @@ func init() {
 	}
 	registry["C15"] = &propCfg{
 		Engine: alias.Engine{}, EngineName: "alias", Level: "exploration", Race: true,
-		QuickRuns: 30000, ThoroughRuns: 600000, QuickCapS: 50, ThoroughCapS: 900,
+		QuickRuns: 24000, ThoroughRuns: 600000, QuickCapS: 50, ThoroughCapS: 900,
 		Rule: "one run = 1-4 documents (values of a string-bearing catalogue type, written by the independent writers in a drawn format) pushed through ONE parser/decoder and ONE unfolder (SetTarget per document, optional key cache) in an environment hostile to aliasing: chunk buffers scribbled after every Write, whole inputs scribbled after Parse/ParseReader/Next, small reused reader buffers, runtime.GC() at seeded event boundaries (GODEBUG=clobberfree=1), -race build with checkptr; 1 run in 5 instead folds a catalogue value into an encoder (a third with user-defined folders, the fold_user.go function-pointer conversion) with and without GC between events; evaluations = scenarios; distinct by (format, entry, target, documents, schedules, GC points); all are non-trivial (every buffer the library saw is destroyed before the targets are read); a third of the runs unfold every document into the SAME never-cleared target, an eighth repeat a member (duplicate keys), one entry point re-fills ONE caller buffer for every document; user-defined unfolders include one that keeps the string it is handed; bytes lent to the library must come back unchanged",
 		Components: map[string][]string{
 			"real": {"json/ubjson/cborl Parser and Decoder", "gotype.Unfolder", "gotype.Fold", "json/ubjson/cborl Visitor", "internal/unsafe conversions under checkptr"},
